@@ -103,7 +103,9 @@ func init() {
 			"(d) Both bytesPrefixRange helpers are called as (prefix, start) by the four NewIterator methods and their result is the library range; the lower bound is the prefix helper's lower bound with start appended, the upper bound is left to the prefix helper (LevelDB: library util.BytesPrefix; Pebble: local copy whose limit is allocated only for a byte < 0xff scanning from the end, incremented, nil otherwise); Pebble returns the unbounded nil range only for prefix == nil && start == nil; the lower bound must be built in private memory. "+
 			"(e) Pebble Replay puts on kind Set and deletes on kind Delete with the decoded key/value, continues only on err == nil and returns that error; the LevelDB replayer forwards Put and Delete only while no failure is recorded, records the writer's error, and batch.Replay must return the recorded failure. "+
 			"(f) memorydb is the flushable overlay over the always-empty devnulldb (all devnulldb methods return zero results); the overlay stores a copy on Put and returns a copy on Get. "+
-			"(g) T20 over every wrapper type of kvdb (table, synced, readonlystore, skipkeys, nokeyiserr, batched, flaggedStore, StoreWithFn, closeDropWrapped, the two replayers): each call on the wrapped key-value value (directly, through a single-definition local, or inside an unexported helper method all of whose callers are that one operation) targets the same-named method unless the pair is in the frozen exception table; a key-value method that has a same-named delegate (own call, or a module helper that always makes it) passes it on every feasible path to a non-error exit (return or end of body; edges implying err != nil and edges contradicted by a constant local boolean flag are not followed), and one that has none is in the frozen intercept table; unused table entries are noted, not reported; readonlystore rejects every Writer method on the store and on its batches; every synced method holds the shared mutex (write mode for mutators) while delegating. "+
+			"(g) T20 over every wrapper type of kvdb (table, synced, readonlystore, skipkeys, nokeyiserr, batched, flaggedStore, StoreWithFn, closeDropWrapped, the two replayers): each call on the wrapped key-value value (directly, through a single-definition local, or inside an unexported helper method all of whose callers are that one operation) targets the same-named method unless the pair is in the frozen exception table; a key-value method that has a same-named delegate (own call, or a module helper that always makes it) passes it on every feasible path to a non-error exit (return or end of body; edges implying err != nil and edges contradicted by a constant local boolean flag are not followed), and one that has none is in the frozen intercept table; unused table entries are noted, not reported; readonlystore rejects every Writer method on the store and on its batches; every synced method holds the shared mutex (write mode for mutators) while delegating; a parameterless numeric observer of the wrapped value (ValueSize) is admitted in any method of a wrapper type to which the exception table grants it; batched.Flush never exits without batch.Write(). "+
+			"(h) Flushable as a map over a disk backend: once flush() has emptied the overlay every exit passes batch.Write() (no size test: ValueSize counts value bytes, empty values and deletes weigh 0); GetSnapshot's copying loop puts every overlay entry, tombstones included, into the snapshot's own tree. "+
+			"Facts spelled in small helpers are decided through them: boolean predicate helpers on branch edges (not-found tests), straight-line byte-slice builders (range lower bound), a helper that receives the replay writer (bound parameters, error handed up). "+
 			"NOT decided: equivalence of the backends and wrapper stacks on operation histories, byte-order/successor arithmetic of the libraries, iterator value semantics (lifetime and nil-ness of Key()/Value() slices), lifecycle after Close/Release (double Release of table iterators and pebble snapshots), key translation of tables (C24), overlay semantics of Flushable (C22).",
 		[]string{
 			"goleveldb and pebble API contracts: ErrNotFound means absent; a pebble value is valid until closer.Close(); First must precede Next; util.BytesPrefix(p) returns {Start: p (aliased), Limit: successor(p) or nil}",
@@ -124,6 +126,7 @@ func runC23(c *core.Ctx) {
 	c23WrapperClause(c)
 	c23ReadonlyClause(c)
 	c23SyncedClause(c)
+	c23OverlayClauses(c)
 }
 
 // ---------------------------------------------------------------------------
@@ -623,7 +626,10 @@ func c23NotFoundClause(c *core.Ctx) {
 				// the caller's key, unchanged
 				okKey := len(lk.Call.Args) >= 1 && varOf(f, lk.Call.Args[0]) == f.Param(0) && f.Param(0) != nil
 				c.Check(okKey, who+"|looks up the caller's key", "provenance", lk.Pos(), "the library is asked for the key parameter itself", "the library is asked for something else than the caller's key")
-				isNF := c23ErrIsFact(f, ev, c23NotFound[be.pkg])
+				// the tests may be spelled in the reader or in a boolean predicate helper it branches on (c23Lift)
+				names := c23NotFound[be.pkg]
+				isNF := c23Lift(f, ev, func(g *core.FuncInfo, v *types.Var) func(core.Fact) bool { return c23ErrIsFact(g, v, names) }, 2)
+				errIsNil := c23Lift(f, ev, func(g *core.FuncInfo, v *types.Var) func(core.Fact) bool { return varNilFact(g, v, true) }, 2)
 				absent := func(r *ast.ReturnStmt) bool {
 					if len(r.Results) != 2 || !core.IsNil(f.Info(), r.Results[1]) {
 						return false
@@ -662,7 +668,7 @@ func c23NotFoundClause(c *core.Ctx) {
 						continue
 					}
 					a, _ := f.GuardedBy(rp, isNF)
-					b, _ := f.GuardedBy(rp, varNilFact(f, ev, true))
+					b, _ := f.GuardedBy(rp, errIsNil)
 					if !a && !b {
 						okErr, bad = false, r.Pos()
 					}
@@ -673,7 +679,7 @@ func c23NotFoundClause(c *core.Ctx) {
 					tr := returnsWith(f, 0, func(e ast.Expr) bool { b, ok := c23BoolConst(f, e); return ok && b })
 					okT := len(tr) >= 1
 					for _, rp := range tr {
-						if g, _ := f.GuardedBy(rp, varNilFact(f, ev, true)); !g {
+						if g, _ := f.GuardedBy(rp, errIsNil); !g {
 							okT = false
 						}
 					}
@@ -1024,37 +1030,25 @@ func c23RangeClause(c *core.Ctx) {
 				}
 			}
 			c.Check(okPH, be+".bytesPrefixRange|bounds come from the prefix helper", "T16b SiblingAgreement", h.Pos(), short(prefixHelper)+"(prefix) supplies lower bound = prefix and upper bound = successor(prefix)", "the bounds are not derived from "+short(prefixHelper)+"(prefix)")
-			// lower bound: append(<lower>, start...)
+			// lower bound: the value assigned to it is <something> followed by start (append/copy idioms evaluated
+			// symbolically, through straight-line helpers of the module: c23EvalBytes)
 			var appends []assignment
+			vals := map[ast.Node]c23Bytes{}
 			for _, a := range assignsToField(h, lower) {
-				call := isCallTo(h, a.RHS, "builtin.append")
-				if call != nil && len(call.Args) == 2 && call.Ellipsis.IsValid() && varOf(h, call.Args[1]) == pStart {
+				val := c23EvalBytes(h, a.RHS, nil, 2)
+				if n := len(val.Parts); val.OK && n >= 1 && val.Parts[n-1].V == pStart {
 					appends = append(appends, a)
+					vals[a.Stmt] = val
 				}
 			}
-			c.Check(len(appends) >= 1, be+".bytesPrefixRange|lower bound = prefix || start", "T16b SiblingAgreement", h.Pos(), "the lower bound is assigned append(<lower bound>, start...)", "start is not appended to the lower bound: iteration does not begin at prefix||start")
+			c.Check(len(appends) >= 1, be+".bytesPrefixRange|lower bound = prefix || start", "T16b SiblingAgreement", h.Pos(), "the lower bound is assigned <lower bound> followed by start", "start is not appended to the lower bound: iteration does not begin at prefix||start")
 			for _, a := range appends {
-				call := isCallTo(h, a.RHS, "builtin.append")
-				base := ast.Unparen(call.Args[0])
-				okBase := fieldNameOf(h, base) == lower
-				// the base may also be a private copy of the lower bound
-				private := false
-				if inner, ok := base.(*ast.CallExpr); ok {
-					switch calleeName(h, inner) {
-					case c23Copy, "bytes.Clone":
-						if len(inner.Args) == 1 && (fieldNameOf(h, inner.Args[0]) == lower || varOf(h, inner.Args[0]) == pPrefix) {
-							okBase, private = true, true
-						}
-					case "builtin.append":
-						if len(inner.Args) == 2 && inner.Ellipsis.IsValid() && c23FreshBase(h, inner.Args[0]) >= 0 && (fieldNameOf(h, inner.Args[1]) == lower || varOf(h, inner.Args[1]) == pPrefix) {
-							okBase, private = true, true
-						}
-					}
-				}
-				if sl, ok := base.(*ast.SliceExpr); ok && sl.Slice3 && fieldNameOf(h, sl.X) == lower && sl.Max != nil && sl.High != nil && types.ExprString(sl.Max) == types.ExprString(sl.High) {
-					okBase, private = true, true // full slice expression: append must reallocate
-				}
-				c.Check(okBase, be+".bytesPrefixRange|start is appended to the prefix bound", "T16b SiblingAgreement", a.Stmt.Pos(), "append's base is the lower bound set from the prefix", "start is appended to something else than the prefix's lower bound")
+				val := vals[a.Stmt]
+				// what precedes start is exactly the prefix's lower bound (the field set from the prefix, or the prefix)
+				okBase := len(val.Parts) == 2 && (val.Parts[0].Field == lower || (val.Parts[0].V != nil && val.Parts[0].V == pPrefix))
+				// built in memory the helper allocated itself (copy first, append to a fresh or capacity-capped base)
+				private := okBase && val.Fresh
+				c.Check(okBase, be+".bytesPrefixRange|start is appended to the prefix bound", "T16b SiblingAgreement", a.Stmt.Pos(), "what precedes start is the lower bound set from the prefix", "start is appended to something else than the prefix's lower bound")
 				// every non-nil return is reached through the append, and through the prefix helper or the prefix == nil edge
 				for _, rp := range h.ReturnPoints() {
 					r := rp.Node().(*ast.ReturnStmt)
@@ -1258,83 +1252,112 @@ func c23ReplayClause(c *core.Ctx) {
 		rd := f.CallsTo(c23LibP + "Batch.Reader")
 		okRd := len(rd) == 1 && fieldNameOf(f, rd[0].Recv()) == c23Pbl+".batch.b"
 		c.Check(okRd, "reads the batch's own operations", "provenance", f.Pos(), "iterates b.b.Reader()", "Replay does not iterate the batch's own operation log")
-		kindIs := func(name string) func(core.Fact) bool {
+		// kind == <constant> for one of the variables kvs of g (the decoded kind, or the helper parameter bound to it)
+		kindIs := func(g *core.FuncInfo, kvs []*types.Var, name string) func(core.Fact) bool {
+			isKind := func(e ast.Expr) bool {
+				v := varOf(g, e)
+				if v == nil {
+					return false
+				}
+				for _, k := range kvs {
+					if k != nil && (v == k || canonVar(g, v) == k) {
+						return true
+					}
+				}
+				return false
+			}
 			return func(ft core.Fact) bool {
 				cm, ok := core.NormCmp(ft)
 				if !ok || cm.R == nil || cm.Op != token.EQL {
 					return false
 				}
 				l, r := cm.L, cm.R
-				if varOf(f, l) != kind {
+				if !isKind(l) {
 					l, r = r, l
 				}
-				return kind != nil && varOf(f, l) == kind && f.P.ObjName(f.ObjOf(r)) == name
+				return isKind(l) && g.P.ObjName(g.ObjOf(r)) == name
 			}
 		}
 		type op struct {
 			callee, kindConst, what string
 			args                    []*types.Var
 		}
-		var errVar *types.Var
-		var opPts []*core.CallSite
+		// one writer operation as Replay sees it: the point in Replay (the call on w, or the call of the helper
+		// that makes it and hands its error up) and the variable of Replay that receives its error
+		type done struct {
+			at *core.CallSite
+			ev *types.Var
+		}
+		var ops []done
 		for _, o := range []op{
 			{kvPut, c23LibP + "InternalKeyKindSet", "Set -> Put(key, value)", []*types.Var{key, val}},
 			{kvDelete, c23LibP + "InternalKeyKindDelete", "Delete -> Delete(key)", []*types.Var{key}},
 		} {
-			cs := f.CallsMatching(func(x *core.CallSite) bool { return x.Name == o.callee && varOf(f, x.Recv()) == w })
-			if len(cs) == 0 {
+			// the writer calls, in Replay or in a helper Replay hands the writer to (inlined view)
+			fws := c23Forwards(f, w, func(x *core.CallSite) bool { return x.Name == o.callee }, 1)
+			if len(fws) == 0 {
 				c.Fail("kind "+o.what, "T16b SiblingAgreement", f.Pos(), "Replay never forwards this kind of operation to the writer: the replayed content differs from the batch")
 				continue
 			}
-			for _, x := range cs {
-				g, wit := f.GuardedBy(x.Pt, kindIs(o.kindConst))
+			for _, fw := range fws {
+				x, host := fw.Site, fw.Host
+				g, wit := host.GuardedBy(x.Pt, kindIs(host, fw.FromTop(kind), o.kindConst))
+				where := host
+				if !g && host != f {
+					// the helper is entered only for this kind
+					g, wit = f.GuardedBy(fw.Top.Pt, kindIs(f, []*types.Var{kind}, o.kindConst))
+					where = f
+				}
 				okArgs := len(x.Call.Args) == len(o.args)
 				for i := range o.args {
-					if okArgs && (o.args[i] == nil || varOf(f, x.Call.Args[i]) != o.args[i]) {
+					if okArgs && (o.args[i] == nil || fw.ToTop(x.Call.Args[i]) != o.args[i]) {
 						okArgs = false
 					}
 				}
-				c.Check(g && okArgs, "kind "+o.what, "T4 GuardedBy + provenance", x.Pos(), "forwarded only for this kind, with the decoded key/value", "the writer call is not tied to the operation kind or does not pass the decoded key/value: "+f.DescribePath(wit))
-				ev := errVarOfCall(f, x.Call)
+				c.Check(g && okArgs, "kind "+o.what, "T4 GuardedBy + provenance", x.Pos(), "forwarded only for this kind, with the decoded key/value", "the writer call is not tied to the operation kind or does not pass the decoded key/value: "+where.DescribePath(wit))
+				// the writer's error reaches a variable of Replay
+				up := host == f || c23ReturnsErrorOf(host, x)
+				var ev *types.Var
+				if up {
+					ev = errVarOfCall(f, fw.Top.Call)
+				}
 				if ev == nil {
 					c.Fail("stops on the first error|"+c23MethodOf(o.callee), "T4 GuardedBy", x.Pos(), "the writer's error is discarded: replay continues after a failed operation and reports success")
 					continue
 				}
-				errVar = ev
-				opPts = append(opPts, x)
+				ops = append(ops, done{fw.Top, ev})
 				// the next operation is decoded only after err == nil
-				ok, wit2 := f.GuardedBetween(x.Pt, nextCalls[0].Pt, varNilFact(f, ev, true))
+				ok, wit2 := f.GuardedBetween(fw.Top.Pt, nextCalls[0].Pt, varNilFact(f, ev, true))
 				c.Check(ok, "stops on the first error|"+c23MethodOf(o.callee), "T4 GuardedBy", x.Pos(), "the next operation is decoded only on the err == nil edge", "replay continues after the writer failed: later operations are applied on top of a missing one; path "+f.DescribePath(wit2))
 			}
 		}
-		// the error is what Replay returns
-		okRet := errVar != nil
+		// the error is what Replay returns: an exit reachable after an operation returns that operation's error
+		// variable, or lies behind an edge on which it is nil
+		okRet := len(ops) > 0
 		var bad token.Pos
 		for _, rp := range f.ReturnPoints() {
 			r := rp.Node().(*ast.ReturnStmt)
-			switch len(r.Results) {
-			case 0:
-				res := f.Obj.Type().(*types.Signature).Results()
-				if res.Len() != 1 || res.At(0) != errVar {
+			if len(r.Results) > 1 {
+				okRet, bad = false, r.Pos()
+				continue
+			}
+			var returned *types.Var
+			if len(r.Results) == 1 {
+				returned = varOf(f, r.Results[0])
+			} else if res := f.Obj.Type().(*types.Signature).Results(); res.Len() == 1 {
+				returned = res.At(0)
+			}
+			for _, x := range ops {
+				if returned == x.ev || !f.CanReach(x.at.Pt, rp) {
+					continue
+				}
+				if g, _ := f.GuardedBetween(x.at.Pt, rp, varNilFact(f, x.ev, true)); !g {
 					okRet, bad = false, r.Pos()
 				}
-			case 1:
-				if varOf(f, r.Results[0]) != errVar {
-					// a literal nil is acceptable only where no failed operation can arrive
-					for _, x := range opPts {
-						if f.CanReach(x.Pt, rp) {
-							if g, _ := f.GuardedBetween(x.Pt, rp, varNilFact(f, errVar, true)); !g {
-								okRet, bad = false, r.Pos()
-							}
-						}
-					}
-				}
-			default:
-				okRet, bad = false, r.Pos()
 			}
 		}
 		c.Check(okRet, "the writer's error is returned", "T3", bad, "every exit after a failed operation returns that error", "Replay can report success although the writer failed")
-		c.ExpectAtLeast("pebble replay writer calls", len(opPts), 2)
+		c.ExpectAtLeast("pebble replay writer calls", len(ops), 2)
 	})
 
 	c.Clause("C23.replay.leveldb", func() {
@@ -1721,6 +1744,16 @@ func c23WrapperClause(c *core.Ctx) {
 					if !kvMethods[m] && c23HelperOf(p, f, w.name, cm) {
 						continue
 					}
+					// a numeric observer of the wrapped value (ValueSize) carries no key or value and changes
+					// nothing: which method of the wrapper consults it is bookkeeping, not a translation of an
+					// operation. It is admitted for the wrapper type as a whole once the table grants it to one
+					// of the type's methods (the size test may move between Put/Delete/MayFlush and a predicate helper).
+					if c23NumericObserver(cs) {
+						if k := c23TypeException(c23Short(w.name), cm); k != "" {
+							usedExc[k] = true
+							continue
+						}
+					}
 					bad = true
 					c.Fail(who+"|calls "+cm+" on the wrapped value", "T20 WrapperDelegation", cs.Pos(), fmt.Sprintf("%s calls %s on the wrapped key-value value: the operation is translated into a different one (not in the exception table)", who, cm))
 				}
@@ -1788,6 +1821,16 @@ func c23WrapperClause(c *core.Ctx) {
 			}
 		}
 		c.Check(okFl, "batched.Store.Flush|reset only after a successful write", "T2+T4", fl.Pos(), "batch.Reset() is reached only after batch.Write() returned nil", "the pending batch can be reset without having been written: queued puts/deletes are lost")
+		// Flush writes whatever is pending: no exit without batch.Write() (in particular not on a size test —
+		// ValueSize counts value bytes only, a batch of deletes or empty values has size 0 and still has content)
+		okWr := len(wr) >= 1
+		var noWr token.Pos
+		for _, rp := range fl.ReturnPoints() {
+			if ok, _ := fl.MustPassBefore(core.Points(wr), rp); !ok {
+				okWr, noWr = false, posOf(rp)
+			}
+		}
+		c.Check(okWr, "batched.Store.Flush|always writes the pending batch", "T2 Dominates", noWr, "every exit of Flush is dominated by batch.Write()", "Flush can return without writing the pending batch: queued operations (e.g. deletes and empty values, which have value size 0) stay unwritten while the caller believes them flushed")
 		c.ExpectAtLeast("wrapper types with declared methods", nTypes, 23)
 		c.ExpectAtLeast("wrapper methods inspected", nMethods, 84)
 	})
